@@ -758,7 +758,7 @@ Proof.
   destruct (read_all_frames c Hc ops seq pos 0%nat ((a ++ w' ++ z) ++ rest) (S (length s - length (packets_of ops))) Hok)
     as (k' & E & Hinv').
   { repeat split; try lia; try assumption. }
-  cbn [padwords repeat concat app] in E. unfold s. rewrite E.
+  cbn [padwords repeat concat app] in E. subst s. rewrite E.
   destruct Hinv' as (Hk & Hne' & _ & _ & _ & Hst').
   cbn [read_all]. fold seq'.
   rewrite (corrupt_frame_rejected c seq' p a w w' z k' rest); try assumption.
